@@ -7,7 +7,7 @@ No cast row and no `cast` hook applies to `DeviceCount`, `NanoCPUs` and `UnitByt
 reads the string.  These are the readings (types/device.go, types/cpus.go, types/bytes.go).  `DeviceCount` and
 `UnitBytes` read *decimal*, unlike the repaired casters — which is what the recorded findings
 `typed:*:{devicecount,bytes}` are about; `NanoCPUs` reads like the float casters since the round-5 repair
-(`parseYAMLNumber` of types/cpus.go = `parseYAMLFloat(_, 64)` of loader/interpolate.go).
+(it calls `utils.ParseYAMLFloat(_, 64)`, the function `toFloat` of loader/interpolate.go calls).
 `UnitBytes` reuses C09's model of `units.RAMInBytes` (`CV.Marshal.decode_UnitBytes`, read-only).
 -/
 namespace CV.Interp
@@ -17,8 +17,8 @@ open CV
 def decodeDeviceCount (s : String) : Option Int :=
   if String.ofList (s.toList.map Char.toLower) = "all" then some (-1) else parseIntDecimal s.toList
 
-/-- `NanoCPUs.DecodeMapstructure` on a string (round 5, after `fix:` 3b56c47): `parseYAMLNumber(v)` — the same
-    reading as `toFloat` (`parseYAMLFloat(_, 64)`: YAML integer spellings first, then `strconv.ParseFloat`), i.e. the
+/-- `NanoCPUs.DecodeMapstructure` on a string (round 5, after `fix:` 3b56c47 / d32a901): `utils.ParseYAMLFloat(v, 64)` —
+    the very call `toFloat` makes (YAML integer spellings first, then `strconv.ParseFloat`; `Model/InterpFloat.lean`), i.e. the
     64-bit component of the opaque float parser; the result is then narrowed to `float32` by the conversion
     `NanoCPUs(f)` (the harness renders both sides through `float32`) -/
 def decodeNanoCPUs (fp : FloatParser) (s : String) : Option String := fp.f64 s
